@@ -705,6 +705,9 @@ func genMisuse(c *Chooser, iv invocation, s *Session, an, bn string) ProcSpec {
 	case 12:
 		s.Dirs = append(s.Dirs, "d")
 		if c.Chance(1, 2) {
+			s.Files = append(s.Files, File{"d/keep", Blob("x")}) // a directory that is not empty
+		}
+		if c.Chance(1, 2) {
 			fl = append(fl, flagSpec{"o", "d", true, false})
 		} else {
 			pos = []string{"d", bn}
